@@ -785,6 +785,13 @@ def fam_fieldcurv(ctx, rec, c):
         for name, got, want in (('tangential', T, dt), ('sagittal', S, ds)):
             # the library intersects two parabasal rays: its error is absolute in vergence, i.e. ~ shift^2 / f
             scale = f + np.where(np.isfinite(want), want, 0.0) ** 2 / f
+            # ... and it is a finite difference: where the focus runs away (next to a caustic at the edge of the field)
+            # its error grows with the local variation of the curve; 1e-3 of the change to the neighbouring field points
+            wz = np.where(np.isfinite(want), want, np.nan)
+            var = np.zeros_like(wz)
+            var[1:] = np.fmax(var[1:], np.abs(np.diff(wz)))
+            var[:-1] = np.fmax(var[:-1], np.abs(np.diff(wz)))
+            scale = scale + np.where(np.isfinite(var), var, 0.0) * (1e-3 / 5e-6)
             rec.close(f'field-curvature-{name}', got, want, 5e-6, scale=scale,
                       msg=f'{name} focus shift at wavelength {w} differs from Coddington\'s equations along the chief ray',
                       detail=dict(f=f, Hy=Hy))
